@@ -91,6 +91,26 @@ class Ctx(object):
                            'ANALYSIS-ERROR %s: %s | %s' % (type(e).__name__, e, ' / '.join(tb[-6:])))
         return None
 
+    def run_with_fallback(self, rule_id, primary, fallback):
+        """run the semantic rule; only when it cannot decide (UNDECIDED, no violation) fall back to the shape-based rule"""
+        n0 = len(self.obl)
+        inst0 = dict(self.rule_instances)
+        self.run(rule_id, primary)
+        mine = self.obl[n0:]
+        if any(o['status'] == UNDECIDED for o in mine) and not any(o['status'] == VIOLATION for o in mine):
+            why = [o['detail'] for o in mine if o['status'] == UNDECIDED][:1]
+            del self.obl[n0:]
+            self.rule_instances = inst0
+            self.extra.setdefault('fallbacks', []).append({'rule': rule_id, 'reason': why[0] if why else ''})
+            n1 = len(self.obl)
+            self.run(rule_id, fallback)
+            # the shape-based rule may confirm a known-good shape; a shape it does not recognise is not a verdict
+            for o in self.obl[n1:]:
+                if o['status'] == VIOLATION:
+                    o['status'] = UNDECIDED
+                    o['detail'] = ('the method could not be executed abstractly (%s) and its shape is not one of the recognised '
+                                   'ones: %s' % ((why[0] if why else '')[:120], o['detail']))
+
     # ---- finishing -------------------------------------------------------------------------------
     def finish(self, explanation, not_decided, assumptions=(), write=True):
         kf_path = os.path.join(VERIF, 'known_findings.json')
